@@ -8,6 +8,7 @@ R4 value classes cannot share: no pointer/reference/view/shared member, no user 
 """
 from ..facts import Broken, walk, pp, loc
 from ..effects import Effects, roots, callee
+from ..own import Sim, Unknown
 from .common import (facts_for, classes, strip_copy, write_rhs, is_mem_of_var, is_this_mem,
                      optimizer_classes)
 
@@ -34,6 +35,16 @@ def field_kind(ty):
     if c == "record" and ty.get("std") in ("shared_ptr", "weak_ptr", "reference_wrapper", "function"):
         return "shared"
     return "value"
+
+
+def show(v):
+    if v[0] == "addr":
+        return "&%s.%s" % (v[1], v[2])
+    if v[0] == "ext":
+        return "a caller-owned object (%s)" % v[1]
+    if v[0] == "uptr":
+        return "unique_ptr -> %s" % (v[1],)
+    return str(v)
 
 
 def find_copy_ops(F, cls):
@@ -96,71 +107,108 @@ def run(chk):
                         for n in walk(rhs):
                             if n.get("k") == "un" and n["op"] == "&" and is_this_mem(n["e"]):
                                 selfptr.setdefault(path[1], set()).add(strip_copy(n["e"])["field"])
+        if any(len(t) != 1 for t in selfptr.values()):
+            raise Broken("a pointer member may point at several own members: %s" % selfptr)
+        sp_map = {k: next(iter(v)) for k, v in selfptr.items()}
+        owning = [f["name"] for f in fields if field_kind(f["ty"]) == "owning"]
+        import itertools
+        cfgs = [dict(zip(sorted(sp_map), c)) for c in itertools.product(("own", "ext"), repeat=len(sp_map))]
         for op in (cc[0], ca[0]):
             chk.saw(op)
-            opname = "copy-constructor" if op.get("copyctor") else "copy-assignment"
+            is_ctor = bool(op.get("copyctor"))
+            opname = "copy-constructor" if is_ctor else "copy-assignment"
             other_id = op["params"][0]["id"]
-            writes = E.function_writes(op)
-            by_field = {}
-            for path, how, node in writes:
-                if path[0] == "this" and len(path) >= 2:
-                    by_field.setdefault(path[1], []).append((how, node))
+            where = "%s:%s (%s %s)" % (op["file"], op["line"], cls, opname)
+            scen = []
+            for cfg in cfgs:
+                for ows in (True, False):
+                    for tws in ((False,) if is_ctor else (True, False)):
+                        scen.append({"ptr": cfg, "other_ws": ows, "this_ws": tws, "self": False})
+                    if not is_ctor:
+                        scen.append({"ptr": cfg, "other_ws": ows, "this_ws": ows, "self": True})
+            results = []
+            for sc in scen:
+                S = Sim(F, cls, sc, sp_map, owning, is_ctor, other_id=other_id)
+                try:
+                    S.run(op)
+                except Unknown as ex:
+                    raise Broken("%s %s: %s" % (cls, opname, ex))
+                results.append((sc, S))
+
+            def describe(sc):
+                return "source %s, source %s a workspace%s%s" % (", ".join("%s -> %s" % (k, "its own default" if v == "own" else "a caller's map") for k, v in sorted(sc["ptr"].items())),
+                                                              "owns" if sc["other_ws"] else "has no", "" if is_ctor else (", destination %s one" % ("owns" if sc["this_ws"] else "has no")),
+                                                              ", self-assignment" if sc["self"] else "")
             for fld in fields:
                 name = fld["name"]
                 kind = field_kind(fld["ty"])
-                where = "%s:%s (%s %s)" % (op["file"], op["line"], cls, opname)
                 inst = "%s %s.%s" % (opname, cls, name)
-                if name in R1_EXCEPTIONS and name not in by_field:
-                    chk.note("R1 exception: %s (%s)" % (name, R1_EXCEPTIONS[name]))
+                if kind in ("reference", "view", "shared"):
+                    chk.ob("C15-R4", inst, False, where, "optimizer member of sharing-capable kind '%s'" % kind, construct="%s::%s" % (cls, name))
                     continue
-                ws = by_field.get(name, [])
-                if kind == "pointer":
-                    targets = selfptr.get(name)
-                    if not targets:
-                        # plain non-owning pointer never bound to an own member: verbatim copy is right
-                        ok = any(is_mem_of_var(write_rhs(n), other_id, name) for _, n in ws)
-                        chk.ob("C15-R1", inst, ok, where, "pointer copied from other.%s" % name, construct="%s::%s/%s" % (cls, opname, name))
-                        continue
-                    if len(targets) != 1:
-                        raise Broken("pointer %s may point at several own members %s" % (name, targets))
-                    own = next(iter(targets))
-                    if not ws:
-                        chk.ob("C15-R2", inst, False, where, "self-referential pointer is never assigned in this copy operation",
-                               construct="%s::%s/%s" % (cls, opname, name))
-                        continue
-                    # the last write decides the final value
-                    how, node = ws[-1]
-                    ok, why = rebinding_ok(write_rhs(node), other_id, name, own)
-                    chk.ob("C15-R2", inst, ok, "%s:%s" % (op["file"], node.get("line")), why,
-                           construct="%s::%s/%s" % (cls, opname, name))
-                elif kind == "owning":
-                    ok, why = owned_ok(op, ws, other_id, name, opname)
-                    chk.ob("C15-R3", inst, ok, where, why, construct="%s::%s/%s" % (cls, opname, name))
-                elif kind in ("reference", "view", "shared"):
-                    chk.ob("C15-R4", inst, False, where, "optimizer member of sharing-capable kind '%s'" % kind,
-                           construct="%s::%s" % (cls, name))
-                else:
-                    ok = any(is_mem_of_var(write_rhs(n), other_id, name) for _, n in ws if write_rhs(n) is not None)
-                    why = "copied from other.%s" % name if ok else (
-                        "member is not copied from other.%s in this operation (writes seen: %s)" % (name, [pp(write_rhs(n)) for _, n in ws]))
-                    chk.ob("C15-R1", inst, ok, where, why, construct="%s::%s/%s" % (cls, opname, name))
-            if op.get("kind") == "copyassign":
-                ok, why = self_assign_guard(op, other_id)
-                chk.ob("C15-R3", "%s self-assignment guard" % cls, ok, "%s:%s" % (op["file"], op["line"]), why,
-                       construct="%s::copy-assignment/self-guard" % cls)
-        # setters of the self-referential pointers: nullptr -> own default
-        for name, targets in selfptr.items():
-            own = next(iter(targets))
+                bad = None
+                for sc, S in results:
+                    v = S.state[name]
+                    if name in sp_map:
+                        want = ("addr", "this", sp_map[name]) if sc["ptr"][name] == "own" else ("ext", name)
+                        if v != want:
+                            bad = (sc, "ends as %s, expected %s" % (show(v), show(want)))
+                    elif name in owning:
+                        if sc["self"]:
+                            okv = v == ("uptr", ("wsobj", "this") if sc["other_ws"] else ("null",)) or (v[0] == "uptr" and v[1][0] == "heap" and S.heap[v[1][1]] == ("copy-of", ("wsobj", "this")))
+                        elif sc["other_ws"]:
+                            okv = v[0] == "uptr" and v[1][0] == "heap" and S.heap[v[1][1]] == ("copy-of", ("wsobj", "other"))
+                        else:
+                            okv = v == ("uptr", ("null",))
+                        if not okv:
+                            bad = (sc, "ends as %s%s" % (show(v), (" = " + str(S.heap[v[1][1]])) if v[0] == "uptr" and v[1][0] == "heap" else ""))
+                        if S.problems:
+                            bad = (sc, S.problems[0])
+                    elif kind == "pointer":
+                        if v not in (("val", "other", name), ("val", "this", name) if sc["self"] else None):
+                            bad = (sc, "plain pointer ends as %s" % show(v))
+                    else:
+                        okv = v == ("val", "other", name) or (sc["self"] and v == ("val", "this", name))
+                        if not okv and name in R1_EXCEPTIONS and v in (("val", "this", name), ("uninit",)):
+                            okv = True
+                        if not okv:
+                            bad = (sc, "ends as %s, not as a copy of other.%s" % (show(v), name))
+                    if bad:
+                        break
+                rule = "C15-R2" if name in sp_map else ("C15-R3" if name in owning else "C15-R1")
+                chk.ob(rule, inst, bad is None, where, ("%d alias configurations" % len(results)) if bad is None else "with %s: %s" % (describe(bad[0]), bad[1]), construct="%s::%s/%s" % (cls, opname, name))
+            if not is_ctor:
+                chk.ob("C15-R3", "%s self-assignment leaves every member as it was" % cls, True, where, "covered by the self-assignment configurations above", construct="%s::copy-assignment/self" % cls)
+        # every other function that stores into a self-referential pointer (setters, private helpers): afterwards the
+        # pointer is the object's own default or a caller's map - never another optimizer's member, never null
+        for name, own in sp_map.items():
             for f in F.funcs(cls):
                 if f.get("copyctor") or f.get("kind") in ("copyassign", "ctor"):
                     continue
-                for path, how, node in E.function_writes(f):
-                    if path == ("this", name):
-                        rhs = strip_copy(write_rhs(node))
-                        ok, why = setter_ok(rhs, f, own)
-                        chk.ob("C15-R2", "setter %s::%s -> %s" % (cls, f["name"], name), ok,
-                               "%s:%s" % (f["file"], node.get("line")), why, construct="%s::%s/%s" % (cls, f["name"], name))
-                        chk.saw(f)
+                if not any(path == ("this", name) for path, how, node in E.function_writes_local(f)):
+                    continue
+                chk.saw(f)
+                oid = next((p_["id"] for p_ in f["params"] if p_["ty"].get("n") == cls), None)
+                pps = [p_ for p_ in f["params"] if p_["ty"].get("c") == "ptr"]
+                bad = None
+                nrun = 0
+                for cfg in (cfgs if oid is not None else cfgs[:1]):
+                    for nulls in itertools.product((True, False), repeat=len(pps)):
+                        params = {p_["id"]: (("null",) if z else ("ext", "argument " + p_["name"])) for p_, z in zip(pps, nulls)}
+                        S = Sim(F, cls, {"ptr": cfg, "other_ws": True, "this_ws": True, "self": False}, sp_map, owning, False, other_id=oid, params=params, lenient=True)
+                        try:
+                            S.run(f)
+                        except Unknown as ex:
+                            raise Broken("%s::%s: %s" % (cls, f["name"], ex))
+                        nrun += 1
+                        for st in S.finals:
+                            v = st[name]
+                            okv = v == ("addr", "this", own) or v[0] == "ext"
+                            if pps and all(nulls) and oid is None:
+                                okv = v == ("addr", "this", own)
+                            if not okv:
+                                bad = "with %s: %s ends as %s" % (", ".join("%s %s" % (p_["name"], "null" if z else "non-null") for p_, z in zip(pps, nulls)) or str(cfg), name, show(v))
+                chk.ob("C15-R2", "setter %s::%s -> %s" % (cls, f["name"], name), bad is None, loc(f), bad or "%d configurations: own default or the caller's map" % nrun, construct="%s::%s/%s" % (cls, f["name"], name))
     chk.floor("C15-R2", 4)
     chk.floor("C15-R3", 3)
     chk.floor("C15-R1", 20)
@@ -171,9 +219,26 @@ def run(chk):
         for cls in F.classes(short):
             rec = F.record(cls)
             where = "%s:%s" % (rec["file"], rec["line"])
-            for flag in ("userCopyCtor", "userCopyAssign", "userMoveCtor", "userMoveAssign"):
-                chk.ob("C15-R4", "%s has no %s" % (cls, flag), not rec[flag], where,
-                       "value class must rely on member-wise copies", construct="%s/%s" % (cls, flag))
+            cc, ca = find_copy_ops(F, cls)
+            for flag, ops, is_ctor in (("userCopyCtor", cc, True), ("userCopyAssign", ca, False)):
+                if not rec[flag]:
+                    chk.ob("C15-R4", "%s: implicit member-wise %s" % (cls, "copy construction" if is_ctor else "copy assignment"), True, where, "no user-provided operation", construct="%s/%s" % (cls, flag))
+                    continue
+                # a hand-written copy operation of a value class: fine when every member ends as a copy of the source's
+                if len(ops) != 1:
+                    raise Broken("%s declares %s but its body was not extracted" % (cls, flag))
+                missing = []
+                for selfsc in ((False,) if is_ctor else (False, True)):
+                    S = Sim(F, cls, {"ptr": {}, "other_ws": False, "this_ws": False, "self": selfsc}, {}, [], is_ctor, other_id=ops[0]["params"][0]["id"])
+                    try:
+                        S.run(ops[0])
+                    except Unknown as ex:
+                        raise Broken("%s %s: %s" % (cls, flag, ex))
+                    missing += [n_ for n_, v in S.state.items() if not (v == ("val", "other", n_) or (selfsc and v == ("val", "this", n_)))]
+                if missing:
+                    raise Broken("%s has a hand-written %s that does not copy %s verbatim; whether that is harmless depends on what those members cache (C11 decides the lazy caches) - not decided here" % (
+                        cls, "copy constructor" if is_ctor else "copy assignment", sorted(set(missing))))
+                chk.ob("C15-R4", "%s: hand-written %s copies every member" % (cls, "copy constructor" if is_ctor else "copy assignment"), True, loc(ops[0]), "", construct="%s/%s" % (cls, flag))
             for fld in rec["fields"]:
                 bad = sharing_kind(F, fld["ty"], set())
                 chk.ob("C15-R4", "%s.%s is a value" % (cls, fld["name"]), bad is None, "%s:%s" % (rec["file"], fld["line"]),
